@@ -80,6 +80,14 @@ def rootNamesClean : Bool :=
 
 theorem root_names_clean : rootNamesClean = true := by decide +kernel
 
+/-- data in progress goes to a renameio pending file below the root, symbolic links are replaced by
+renameio's temp-symlink-and-rename: the two helpers are exactly these calls -/
+def pendingHelpersOk : Bool :=
+  newPendingFileBody == "{ return renameio.NewPendingFile(fn, renameio.WithRoot(root)) }" &&
+  symlinkBody == "{ return renameio.SymlinkRoot(root, oldname, newname) }"
+
+theorem pending_helpers_ok : pendingHelpersOk = true := by decide +kernel
+
 theorem dry_sites_guarded : drySafe = true ∧ dryBranchPure = true := by decide
 theorem receiver_sites_confined : receiverConfined = true := by decide
 theorem sender_sites_confined : senderConfined = true := by decide
